@@ -1111,8 +1111,24 @@ func (w *world) exec(op string) (res string) {
 			return w.showIDs(got) + " end"
 		}
 		return w.showIDs(got)
-	case "burst":
+	case "burst", "gburst":
 		// burst <call>:<id> ...   the calls run concurrently, one goroutine each, released together
+		// gburst <gate id> <call>:<id> ...   the same, but every call is PARKED at its first read of host <gate id>'s
+		// address (hook VerifHostGate: the harness holds that HostInfo's write lock) - inside whatever critical section
+		// it is in - until every call of the burst is parked (on the gate or on a lock another parked call holds) or has
+		// returned; then the gate is opened. The schedule class "all calls in progress at once", produced on purpose.
+		var gate *gocql.HostInfo
+		if f[0] == "gburst" {
+			if len(f) < 3 {
+				return "bad-op"
+			}
+			g, ok := w.hosts[atoi(f[1])]
+			if !ok {
+				return "bad-op"
+			}
+			gate = g
+			f = f[1:]
+		}
 		if len(f) < 2 || w.alias() {
 			return "bad-op"
 		}
@@ -1134,13 +1150,23 @@ func (w *world) exec(op string) (res string) {
 		}
 		w.lastPlain = nil
 		w.epoch++
-		var arrived int32
+		var arrived, finished int32
 		var wg sync.WaitGroup
 		panics := make([]string, len(calls))
+		var openGate func()
+		if gate != nil {
+			for _, c := range calls {
+				if w.hosts[c.id] == gate {
+					return "bad-op" // the gate is a host no call of the burst is about
+				}
+			}
+			openGate = gocql.VerifHostGate(gate)
+		}
 		for i, c := range calls {
 			wg.Add(1)
 			go func(i int, c burstCall) {
 				defer wg.Done()
+				defer atomic.AddInt32(&finished, 1)
 				defer func() {
 					if r := recover(); r != nil {
 						panics[i] = fmt.Sprint(r)
@@ -1163,6 +1189,18 @@ func (w *world) exec(op string) (res string) {
 					w.pol.HostDown(h)
 				}
 			}(i, c)
+		}
+		if gate != nil {
+			// open the gate once every call is parked or has returned (event order: goroutine states read from the
+			// runtime; the bound of 200 polls only limits the wait, no verdict depends on it)
+			for poll := 0; poll < 200; poll++ {
+				fin := int(atomic.LoadInt32(&finished)) // read BEFORE the goroutine states: no call is counted twice
+				if atomic.LoadInt32(&arrived) == int32(len(calls)) && fin+parkedInGocql() >= len(calls) {
+					break
+				}
+				time.Sleep(100 * time.Microsecond)
+			}
+			openGate()
 		}
 		done := make(chan struct{})
 		go func() { wg.Wait(); close(done) }()
@@ -1283,6 +1321,26 @@ func (w *world) exec(op string) (res string) {
 		return "ok"
 	}
 	return "bad-op"
+}
+
+// parkedInGocql: the number of goroutines that are blocked on a lock (sync.Mutex / sync.RWMutex) with a gocql frame
+// on their stack - the calls of a gated burst that wait at the gate or behind a call that waits there
+func parkedInGocql() int {
+	buf := make([]byte, 1<<19)
+	buf = buf[:runtime.Stack(buf, true)]
+	n := 0
+	for _, g := range strings.Split(string(buf), "\n\n") {
+		nl := strings.Index(g, "\n")
+		if nl < 0 {
+			continue
+		}
+		hdr := g[:nl]
+		if (strings.Contains(hdr, "Mutex.Lock") || strings.Contains(hdr, "RWMutex.RLock") || strings.Contains(hdr, "semacquire")) &&
+			strings.Contains(g, "github.com/gocql/gocql.(*") {
+			n++
+		}
+	}
+	return n
 }
 
 func (w *world) sortedShow(got []*gocql.HostInfo) string {
@@ -2048,6 +2106,7 @@ func (g *gen) burstScenario(idx, rounds int) {
 		g.emit("kschg 1", "kschg", true)
 	}
 	cls := "/" + g.kind + "/ta" + b01(g.ta)
+	burstNo := idx
 	burst := func(kind string, calls []string) {
 		if len(calls) < 2 {
 			return // a burst needs two calls
@@ -2056,7 +2115,29 @@ func (g *gen) burstScenario(idx, rounds int) {
 			j := r.Intn(i + 1)
 			calls[i], calls[j] = calls[j], calls[i]
 		}
-		a := g.emit("burst "+strings.Join(calls, " "), "burst"+cls+"/"+kind, true)
+		// every other burst is GATED: the calls are parked at their first read of the address of one listed host of
+		// the nearest tier that no call is about, and released together once all of them are in progress (gburst).
+		// The gate is chosen from the op lines alone, without drawing from the generator.
+		burstNo++
+		line, bk := "burst "+strings.Join(calls, " "), "burst"
+		if burstNo%2 == 1 {
+			inBurst := map[int]bool{}
+			for _, c := range calls {
+				inBurst[atoi(c[strings.Index(c, ":")+1:])] = true
+			}
+			var cand []int
+			for id := 1; id <= g.n; id++ {
+				st := g.w.stat(id)
+				if h, ok := g.w.hosts[id]; ok && !inBurst[id] && !g.w.taint[id] && st.known && (st.last == "add" || st.last == "hup") && g.w.tier(h) == 0 {
+					cand = append(cand, id)
+				}
+			}
+			if len(cand) > 0 {
+				line = fmt.Sprintf("gburst %d %s", cand[(burstNo*7)%len(cand)], strings.Join(calls, " "))
+				bk = "gburst"
+			}
+		}
+		a := g.emit(line, bk+cls+"/"+kind, true)
 		if a != "ok" {
 			return
 		}
